@@ -13,6 +13,10 @@ READER_TB = ['translator reading of reader.go (dispatch table, shapes of read lo
              'hand model of the splitter and of the re-split, tied by stream l4-reader (13k reads: chunkings, fault offsets, 64 KiB boundaries)']
 CODEC_DEPS = ['theories/Model/Layout.v', 'theories/Theory/ConvFacts.v', 'theories/Theory/CodecFacts.v', 'theories/Theory/CodecRoundTrip.v', 'theories/Theory/CodecTags.v', 'gen/Tags.v']
 
+SERVER_DEPS = ['theories/Model/Server.v', 'theories/Theory/ServerFacts.v', 'gen/Handlers.v']
+SERVER_TB = ['translator reading of cmd/server/files.go and storage.go (routes, repository calls per handler, captured-variable assignments, lock discipline, normalised handler text)',
+             'hand model of the handlers (Model/Server.v) tied by streams l6-http (sequential histories) and l6-sched (every interleaving of repository steps of 2- and 3-request combinations): responses and final store compared']
+
 PROPS = {
     'C01': {
         'props': ['theories/Props/C01.v'], 'deps': CODEC_DEPS,
@@ -51,6 +55,25 @@ PROPS = {
         'streams': ['l5-props', 'l3-write'],
         'trusted_base': ['translator reading of writer.go (emission plan, Write/epilogue shape) and of the 60 Format functions', 'hand model of converters.go (Model/Converters.v)'],
         'assumptions': COMMON_ASSUME,
+    },
+    'C16': {
+        'props': ['theories/Props/C16.v'], 'deps': SERVER_DEPS,
+        'streams': ['l6-sched', 'l6-conc', 'l6-http'],
+        'trusted_base': SERVER_TB + ['scheduling wrapper around WireFileRepository in the verif-tagged test hook (grant/ack per repository call)', 'porcupine v1.3.0 linearizability checker for the stress histories (supports the search only)'],
+        'assumptions': COMMON_ASSUME + ['sync.Mutex gives mutual exclusion: each repository method is one atomic step (obligation repo_methods_locked)',
+                                        'the linearizability theorem covers handlers with a single repository call; add-message (getFile then saveFile) is refuted in Findings/C16.v and recorded as a known finding'],
+    },
+    'C17': {
+        'props': ['theories/Props/C17.v'], 'deps': SERVER_DEPS + ['theories/Theory/WriterFacts.v', 'theories/Theory/ReaderFacts.v'],
+        'streams': ['l6-http'],
+        'trusted_base': SERVER_TB + ['encoding/json decoding of request bodies is outside the model: JSON requests enter the model as decoded messages (the harness decodes with the library)'],
+        'assumptions': COMMON_ASSUME,
+    },
+    'C18': {
+        'props': ['theories/Props/C18.v'], 'deps': SERVER_DEPS,
+        'streams': ['l6-conc', 'l6-http'],
+        'trusted_base': SERVER_TB + ['Go race detector (go test -race) over the real router with 2..64 concurrent clients: the data-race half of the property is runtime behaviour the Coq model cannot exhibit'],
+        'assumptions': COMMON_ASSUME + ['partial: data-race freedom is established by the effect discipline obligations (no assignment to captured variables, repository under mutex) plus race-detector runs, not by a theorem about the Go memory model'],
     },
     'C15': {
         'props': ['theories/Props/C15.v'], 'deps': READER_DEPS,
